@@ -133,6 +133,10 @@ def bounded(ctx, b):
         # cue boundaries on frames whose float time lands just below the integer (201, 203, 803)
         CaptionSet({"en-US": CaptionList([Caption(4000000, 8040000, [T("frame 201")]), Caption(8120000, 9000000, [T("frame 203")]),
                                           Caption(32120000, 33000000, [T("frame 803")])])}),
+        # every "difficult" text once, deterministically (arrow, references, tag look-alikes, braces)
+        CaptionSet({"en-US": CaptionList([Caption((2 * j + 1) * US, (2 * j + 2) * US, [T(t)]) for j, t in enumerate(
+            ["Press A --> B to continue", "-->", "a --> b --> c", "write &lt; for less", "&amp;lt; twice", "R&D <dept>", "<v Bob> said",
+             "{sighs} I know.", "it's \"q\"", "&#XE9; &#1114112;", "x < y > z & w"])])}),
         # consecutive breaks / an empty line inside a cue
         CaptionSet({"en-US": CaptionList([Caption(1000000, 2000000, [T("a"), BR(), BR(), T("b")]), Caption(3000000, 4000000, [T("c"), BR(), T(""), BR(), T("d")]),
                                           Caption(5000000, 6000000, [T("last")])])}),
